@@ -1093,6 +1093,10 @@ func BV2Nat(a *Term) *Term {
 	if a.IsConst() {
 		return IntConst(a.C)
 	}
+	if a.Op == OInt2BV {
+		// the unsigned value of an integer truncated to w bits, in pure integer arithmetic
+		return IntBin(OIMod, a.Args[0], IntConst(pow2(a.S.W)))
+	}
 	return intern(&Term{Op: OBV2Nat, S: SInt, Args: []*Term{a}})
 }
 
@@ -1104,6 +1108,13 @@ func BV2IntSigned(a *Term) *Term {
 	w := a.S.W
 	if a.Op == OZExt && a.Args[0].S.W < w {
 		return BV2Nat(a.Args[0])
+	}
+	if a.Op == OInt2BV {
+		// the signed value of an integer wrapped to w bits, in pure integer arithmetic
+		half := IntConst(pow2(w - 1))
+		r := IntBin(OISub, IntBin(OIMod, IntBin(OIAdd, a.Args[0], half), IntConst(pow2(w))), half)
+		signedOf.Store(r.ID, a)
+		return r
 	}
 	n := BV2Nat(a)
 	half := new(big.Int).Lsh(bigOne, uint(w-1))
